@@ -35,6 +35,61 @@ fn probe(path: &str) {
     }
 }
 
+/// Stored witnesses of the known findings (known_findings.txt), replayed on the implementation
+/// every run: (class, query on `fixed_graph`, the rows openCypher defines).
+fn replay_known(out: &mut Out) {
+    let i = Val::Int;
+    let witnesses: Vec<(&str, &str, Vec<Vec<Val>>)> = vec![
+        (
+            "varlen_reachability",
+            "MATCH (a)-[*1..1]->(b) WHERE id(a) = 1 RETURN id(b) AS x",
+            vec![vec![i(2)], vec![i(2)]],
+        ),
+        (
+            "optional_where_outer",
+            "MATCH (n:A) OPTIONAL MATCH (n)-[r]->(m) WHERE n.p0 = 2 RETURN id(n) AS x, id(m) AS y",
+            vec![vec![i(1), Val::Null], vec![i(2), i(3)]],
+        ),
+        (
+            "where_after_optional",
+            "OPTIONAL MATCH (n:D) MATCH (m:A) WHERE n.p2 RETURN id(m) AS x",
+            vec![],
+        ),
+        (
+            "multi_path_rel_iso",
+            "MATCH (a)-[r]->(b), (c)-[s]->(d) RETURN count(*) AS x",
+            vec![vec![i(30)]],
+        ),
+        ("list_eq_null", "RETURN [1, null] = [1, null] AS x", vec![vec![Val::Null]]),
+        ("with_agg_empty", "MATCH (n:D) WITH count(*) AS c RETURN c AS x", vec![vec![i(0)]]),
+        ("sum_distinct", "MATCH (n) RETURN sum(DISTINCT 5) AS x", vec![vec![i(5)]]),
+        (
+            "collect_distinct_entities",
+            "MATCH (n:A) RETURN size(collect(DISTINCT n)) AS x",
+            vec![vec![i(2)]],
+        ),
+    ];
+    let (store, _) = build_store(&fixed_graph());
+    for (class, q, expected) in witnesses {
+        let obs = run_engine(&store, q, &[]);
+        let same = match &obs {
+            Obs::Ok(rows) => {
+                let mut a: Vec<String> = rows.iter().map(|r| format!("{:?}", r)).collect();
+                let mut b: Vec<String> = expected.iter().map(|r| format!("{:?}", r)).collect();
+                a.sort();
+                b.sort();
+                a == b
+            }
+            _ => false,
+        };
+        out.known.push(KnownReplay {
+            class: class.to_string(),
+            still_fails: !same,
+            detail: format!("{} on the fixed graph: engine {}, openCypher {}", q, human_obs(&obs), human_obs(&Obs::Ok(expected))),
+        });
+    }
+}
+
 fn load_corpus() -> BTreeSet<String> {
     let mut s = BTreeSet::new();
     if let Ok(t) = std::fs::read_to_string("/verif/corpus/C01/supported.jsonl") {
@@ -89,7 +144,13 @@ fn main() {
         let q = cx.gen_query();
         let feats = cx.features.clone();
         let text = render_query(&q);
-        let shape = shape_of(&q);
+        let mut shape = shape_of(&q);
+        if feats.contains("ill_typed") {
+            shape.push_str(" !ill");
+        }
+        if feats.contains("list_concat") {
+            shape.push_str(" !lc");
+        }
         let idx = out.next_index();
         if !out.wants(idx) {
             out.skip();
@@ -135,6 +196,7 @@ fn main() {
             out.fail(i, &human, &d, None);
         }
     }
+    replay_known(&mut out);
     if let Ok(p) = std::env::var("C01_RECORD") {
         let mut s = String::new();
         for (k, (ok, err)) in &shapes {
